@@ -65,6 +65,10 @@ type Plan struct {
 
 const avoidUnseeded = "unseeded_concurrent_roll"
 
+// reprBudget bounds the harness's own rendering of a value (vmx.ReprN): a DAG such as x=[x,x] built k times is
+// cheap for the VM but prints 2^k leaves.
+const reprBudget = 20000
+
 // ---------------------------------------------------------------------------
 // one evaluation and what is observed of it
 
@@ -131,12 +135,12 @@ func newVM(spec VMSpec, log *hookLog) *ds.Context {
 		vm.Config.CallbackSt = func(_type string, name string, val *ds.VMValue, extra *ds.VMValue, op string, detail string) {
 			ex := ""
 			if extra != nil {
-				ex = vmx.Repr(extra)
+				ex = vmx.ReprN(extra, reprBudget)
 			}
-			log.add("st", _type, name, vmx.Repr(val), ex, op, detail)
+			log.add("st", _type, name, vmx.ReprN(val, reprBudget), ex, op, detail)
 		}
 		vm.Config.HookValueStore = func(ctx *ds.Context, name string, v *ds.VMValue) (*ds.VMValue, bool) {
-			log.add("store", name, vmx.Repr(v))
+			log.add("store", name, vmx.ReprN(v, reprBudget))
 			return nil, false
 		}
 	}
@@ -155,7 +159,7 @@ func evalStep(vm *ds.Context, spec *VMSpec, st Step, log *hookLog, seedObs bool)
 			o.Err = err.Error()
 		}
 		if err == nil {
-			o.Ret = vmx.Repr(vm.Ret)
+			o.Ret = vmx.ReprN(vm.Ret, reprBudget)
 			if vm.Ret != nil && vm.Ret.TypeId == ds.VMTypeInt {
 				i, _ := vm.Ret.ReadInt()
 				o.RetInt, o.RetIsInt = int64(i), true
@@ -164,7 +168,7 @@ func evalStep(vm *ds.Context, spec *VMSpec, st Step, log *hookLog, seedObs bool)
 			o.Rest = vm.RestInput
 			o.Detail = vm.GetDetailText()
 		}
-		a := vmx.AttrsRepr(vm)
+		a := vmx.AttrsReprN(vm, reprBudget)
 		o.Attrs, o.AttrsLen = rt.Hash(a), len(a)
 		o.Ops = int64(vm.NumOpCount)
 		if seedObs {
@@ -193,7 +197,9 @@ type aloneRun struct {
 // runAlone runs one VM history with nothing else running.  For an unseeded VM it
 // also notes, by reading the process-wide generator's state before and after,
 // which evaluations drew from it.
-func runAlone(spec VMSpec) aloneRun {
+func runAlone(spec VMSpec) aloneRun { return runAloneP(spec, nil) }
+
+func runAloneP(spec VMSpec, cell *progressCell) aloneRun {
 	var log hookLog
 	vm := newVM(spec, &log)
 	unseeded := spec.Cfg.SeedHex == ""
@@ -210,9 +216,78 @@ func runAlone(spec VMSpec) aloneRun {
 			ar.rolled++
 		}
 		ar.tainted[i] = taint
+		if cell != nil {
+			cell.n.Add(1)
+		}
 	}
 	return ar
 }
+
+// progressCell is written by exactly one worker goroutine and read only by the watchdog, so it orders no
+// two workers with each other (a counter shared by the workers would, and would hide races from the detector).
+type progressCell struct {
+	n atomic.Int64
+	_ [56]byte
+}
+
+const (
+	stallLimit = 90 * time.Second // no evaluation finished anywhere for this long: a VM is spinning or blocked
+	heapLimit  = 3 << 30          // bytes of live heap; an ordinary plan stays below a few hundred MB
+)
+
+var maxHeapSeen uint64
+
+// guarded runs fn in its own goroutine and watches it: "" when fn returned, "hang" when no progress cell moved for
+// stallLimit, "memory" when the heap passed heapLimit.  After a non-empty verdict fn is still running; the caller
+// must end the process soon.  (Evaluations are bounded by OpCountLimit on the real code, so neither happens there;
+// VMs that corrupt each other can do both.)
+func guarded(cells []progressCell, fn func()) string {
+	done := make(chan struct{})
+	go func() {
+		defer close(done)
+		fn()
+	}()
+	tick := time.NewTicker(500 * time.Millisecond)
+	defer tick.Stop()
+	last := int64(-1)
+	lastMove := time.Now()
+	var ms runtime.MemStats
+	for {
+		select {
+		case <-done:
+			return ""
+		case <-tick.C:
+			sum := int64(0)
+			for i := range cells {
+				sum += cells[i].n.Load()
+			}
+			if sum != last {
+				last, lastMove = sum, time.Now()
+			} else if time.Since(lastMove) > stallLimit {
+				return "hang"
+			}
+			runtime.ReadMemStats(&ms)
+			if ms.HeapAlloc > maxHeapSeen {
+				maxHeapSeen = ms.HeapAlloc
+			}
+			if ms.HeapAlloc > heapLimit {
+				return "memory"
+			}
+		}
+	}
+}
+
+// runAloneGuarded is runAlone under the watchdog.
+func runAloneGuarded(spec VMSpec) (aloneRun, string) {
+	cells := make([]progressCell, 1)
+	var ar aloneRun
+	v := guarded(cells, func() { ar = runAloneP(spec, &cells[0]) })
+	return ar, v
+}
+
+// fatalExit, when set (TestProp), records a failure after which the process cannot go on (goroutines that never
+// return, a heap that keeps growing), writes the shard result and ends the process.
+var fatalExit func(f *rt.Failure)
 
 type concRun struct {
 	out    []Outcome
@@ -231,7 +306,7 @@ var (
 // the barrier, the final join and (Serial only) rollMu the goroutines do not
 // synchronise with each other: any such edge would order their memory accesses
 // for the race detector and hide races.  Time stamps are plain clock reads.
-func runConcurrently(c Plan, alone []aloneRun) []concRun {
+func runConcurrently(c Plan, alone []aloneRun, cells []progressCell) []concRun {
 	res := make([]concRun, len(c.VMs))
 	var wg sync.WaitGroup
 	start := make(chan struct{})
@@ -291,6 +366,7 @@ func runConcurrently(c Plan, alone []aloneRun) []concRun {
 					rollMu.Unlock()
 				}
 				r.out = append(r.out, o)
+				cells[g].n.Add(1)
 			}
 		}(g)
 	}
@@ -364,7 +440,7 @@ func compare(got, want Outcome, tainted bool, st Step, seeded bool) *diff {
 				return &diff{"matched", fmt.Sprintf("Matched=%q Rest=%q", got.Matched, got.Rest), fmt.Sprintf("Matched=%q Rest=%q", want.Matched, want.Rest)}
 			}
 		}
-		if st.Kind == "dice" && got.Panic == "" {
+		if st.Kind == "dice" && got.Panic == "" && want.Panic == "" && want.Err == "" {
 			if got.Err != "" || !got.RetIsInt || got.RetInt < st.Lo || got.RetInt > st.Hi {
 				return &diff{"dice-range", fmt.Sprintf("err=%q value=%s", got.Err, got.Ret), fmt.Sprintf("an integer in [%d, %d]", st.Lo, st.Hi)}
 			}
@@ -425,6 +501,22 @@ func clip(s string, n int) string {
 var capture *stderrCapture // non-nil while a section of the race binary runs
 var echoRaces bool         // replay: race reports are also passed on to the real stderr, where the driver reads them
 
+func verdictText(v string) string {
+	if v == "hang" {
+		return fmt.Sprintf("no evaluation finished for %s although every VM has an operation budget", stallLimit)
+	}
+	return fmt.Sprintf("live heap above %d MB", heapLimit>>20)
+}
+
+// stuck builds the failure for a plan that cannot be finished and, in TestProp, ends the process with it.
+func stuck(s *rt.Section, c Plan, sig, observed string) *rt.Failure {
+	f := s.NewFailure("bounded-evaluation", sig, c, observed, "every evaluation ends within its VM's budget, beside other VMs as when alone")
+	if fatalExit != nil {
+		fatalExit(f)
+	}
+	return f
+}
+
 // checkPlan is the oracle.  It is a function of the plan and of the schedule the run happened to get.
 func checkPlan(c Plan, s *rt.Section) (*rt.Failure, planInfo) { return checkPlanWith(c, s, nil) }
 
@@ -439,7 +531,10 @@ func checkPlanWith(c Plan, s *rt.Section, pre []*aloneRun) (*rt.Failure, planInf
 		if g < len(pre) && pre[g] != nil {
 			alone[g] = *pre[g]
 		} else {
-			alone[g] = runAlone(spec)
+			var verdict string
+			if alone[g], verdict = runAloneGuarded(spec); verdict != "" {
+				return stuck(s, c, "alone:"+verdict, fmt.Sprintf("VM %d run alone: %s", g, verdictText(verdict))), info
+			}
 		}
 		for i, o := range alone[g].out {
 			info.steps++
@@ -464,7 +559,15 @@ func checkPlanWith(c Plan, s *rt.Section, pre []*aloneRun) (*rt.Failure, planInf
 	if capture != nil {
 		capture.passThrough(capture.read()) // nothing of an earlier plan is charged to this one
 	}
-	res := runConcurrently(c, alone)
+	cells := make([]progressCell, len(c.VMs))
+	var res []concRun
+	if verdict := guarded(cells, func() { res = runConcurrently(c, alone, cells) }); verdict != "" {
+		done := make([]int64, len(cells))
+		for i := range cells {
+			done[i] = cells[i].n.Load()
+		}
+		return stuck(s, c, "conc:"+verdict, fmt.Sprintf("all VMs at once: %s; evaluations finished per VM %v, each history ran to its end alone", verdictText(verdict), done)), info
+	}
 	info.overlap = overlapping(res)
 	raceText := ""
 	if capture != nil {
@@ -512,7 +615,10 @@ func checkPlanWith(c Plan, s *rt.Section, pre []*aloneRun) (*rt.Failure, planInf
 				alone2 = make([]*aloneRun, len(c.VMs))
 			}
 			if alone2[g] == nil {
-				a := runAlone(spec)
+				a, verdict := runAloneGuarded(spec)
+				if verdict != "" {
+					return stuck(s, c, "alone:"+verdict, fmt.Sprintf("VM %d run alone a second time: %s", g, verdictText(verdict))), info
+				}
 				alone2[g] = &a
 			}
 			if d2 := compare(alone2[g].out[i], alone[g].out[i], alone[g].tainted[i], st, seeded); d2 != nil {
@@ -635,7 +741,20 @@ type vmGen struct {
 	unseeded bool
 }
 
+// maxSrc: longer sources are replaced (counted): the memoising parser needs hundreds of MB for a 40 KB sum, eight
+// such parses at once would look like a runaway heap to the watchdog; long inputs are C07's subject, not C11's.
+const maxSrc = 3000
+
 func drawStep(t *rapid.T, s *rt.Section, vg *vmGen) Step {
+	st := drawStep1(t, s, vg)
+	if len(st.Src) > maxSrc {
+		s.Discard("source-longer-than-3000-bytes")
+		return Step{Src: rapid.SampledFrom(catalogue).Draw(t, "fixed"), Kind: "fixed"}
+	}
+	return st
+}
+
+func drawStep1(t *rapid.T, s *rt.Section, vg *vmGen) Step {
 	g := gen.NewG(t, vg.o, vg.env)
 	noisy := func() string {
 		z := &gen.Noise{Vals: rapid.SliceOfN(rapid.IntRange(0, 1000), 0, 8).Draw(t, "noise")}
@@ -670,7 +789,63 @@ func drawStep(t *rapid.T, s *rt.Section, vg *vmGen) Step {
 	return Step{Src: fmt.Sprintf("%dd%d + %d", x, y, kk), Kind: "dice", Lo: int64(x + kk), Hi: int64(x*y + kk)}
 }
 
+// contention templates: every VM of the plan runs the same program text, over and over, with its own number
+// {t} in it, so that all VMs use the same shared object (built-in function, prototype method) at the same moment
+// while the right answer differs from VM to VM.
+var contentionTemplates = []string{
+	"[{t},{t}+1,{t}+2].kh(1)",
+	"[{t},{t}+1,{t}+2].kl(2)",
+	"x=[{t}]; x.push({t}+1); x.push({t}+2); x.sum() + x.len()",
+	"x=[{t},1,2]; x.pop() + x.shift()",
+	"{'k': {t}}.values()",
+	"{'k{t}': 1}.keys()",
+	"{'k': {t}}.items()",
+	"v = [{t},900,1].kl; v(1)",
+	"w = [7,{t}].push; w({t}); w(1)",
+	"&y = {t} + 1; y.compute() + y",
+	"&y = this.q + {t}; &y.q = {t}; y",
+	"ceil({t}.5) + floor({t}.5) + round({t}.5) + abs(0-{t})",
+	"toStr({t}) + repr('{t}') + toStr(toInt('{t}') + toFloat({t}))",
+	"q = {t}; load('q') + 1",
+	"store('z{t}', {t}); z{t} * 2",
+	"func g1(n) { n * {t} }; g1(3)",
+	"`a{ {t} + 1 }b{% {t} * 2 %}`",
+	"^st 力量{t} 敏捷:{t}",
+	"E{t} + gtag",
+	"({t} + 1",
+	"[{t}][5]",
+	"3d{t} + {t}d6k2",
+	"[{t},2,3,4].shuffle()",
+	"typeId({t}) + dir([{t}]).len()",
+}
+
+func drawContention(t *rapid.T) Plan {
+	c := Plan{}
+	tpl := rapid.SampledFrom(contentionTemplates).Draw(t, "contendOn")
+	nvm := rapid.SampledFrom([]int{2, 3, 4, 4, 6}).Draw(t, "vms")
+	rounds := rapid.IntRange(5, 30).Draw(t, "rounds")
+	for i := 0; i < nvm; i++ {
+		seeded := rapid.IntRange(0, 9).Draw(t, "seeded") < 8
+		spec := VMSpec{Cfg: drawCfg(t, seeded), Tag: 3 + 7*i, Hooks: rapid.Bool().Draw(t, "hooks"),
+			SeedObs: rapid.Bool().Draw(t, "seedObs"), Spin: rapid.IntRange(0, 10).Draw(t, "spin")}
+		spec.Cfg.NoStmts = false
+		src := strings.ReplaceAll(tpl, "{t}", strconv.Itoa(spec.Tag))
+		for j := 0; j < rounds; j++ {
+			spec.Steps = append(spec.Steps, Step{Src: src, Kind: "fixed"})
+		}
+		c.VMs = append(c.VMs, spec)
+	}
+	if hooksOn {
+		c.YieldEvery = rapid.SampledFrom([]int{0, 1, 1, 2, 3, 7}).Draw(t, "yieldEvery")
+	}
+	return c
+}
+
 func drawPlan(t *rapid.T, s *rt.Section, maxSteps int) Plan {
+	if rapid.IntRange(0, 3).Draw(t, "contention") == 0 {
+		s.Class("plans-contending-on-one-program")
+		return drawContention(t)
+	}
 	c := Plan{}
 	nvm := rapid.SampledFrom([]int{2, 2, 2, 3, 3, 4, 4, 5, 6, 8}).Draw(t, "vms")
 	forceUnseeded := rapid.IntRange(-1, nvm-1).Draw(t, "forceUnseeded") // most plans have at least one unseeded VM
@@ -751,7 +926,7 @@ func classify(s *rt.Section, c Plan, info planInfo, h uint64) {
 	}
 }
 
-const planRule = "plan = 2..8 goroutines, each with its own VM (seeded 60 % / unseeded, own error language, family flags, min/max mode, budgets, restriction flags, 1/3 with own custom dice + global-load func + st callback + store hook) and 5..40 programs: generated programs with noise on an accumulating variable environment (dice of the enabled families), the same with a broken-off tail or 1..3 byte edits, hostile-typing templates, a fixed catalogue (every built-in, prototype and bound method, dice family, template, st form, rejected inputs) and plain XdY+K terms; each VM history is run alone first, then all VMs run at once behind a barrier with drawn spins and yields; every evaluation is compared with its solitary twin (parse verdict, error text, value, Matched/RestInput, process text, variables, op count, generator state, hook log; after an unseeded VM's first draw from the process-wide generator only parse verdict, parse error text, Matched/RestInput and the legal range of XdY+K); non-trivial = at least two goroutines had evaluations in progress at the same time (clock stamps) and the plan contains a parse error and an unseeded roll; distinct by plan; evaluations = programs executed concurrently"
+const planRule = "plan = 2..8 goroutines, each with its own VM (seeded 60 % / unseeded, own error language, family flags, min/max mode, budgets, restriction flags, 1/3 with own custom dice + global-load func + st callback + store hook) and 5..40 programs: generated programs with noise on an accumulating variable environment (dice of the enabled families), the same with a broken-off tail or 1..3 byte edits, hostile-typing templates, a fixed catalogue (every built-in, prototype and bound method, dice family, template, st form, rejected inputs) and plain XdY+K terms; one plan in four instead lets all its VMs run one and the same template 5..30 times, each with its own number in it (same shared built-in at the same moment, different right answers); each VM history is run alone first, then all VMs run at once behind a barrier with drawn spins and yields; every evaluation is compared with its solitary twin (parse verdict, error text, value, Matched/RestInput, process text, variables, op count, generator state, hook log; after an unseeded VM's first draw from the process-wide generator only parse verdict, parse error text, Matched/RestInput and the legal range of XdY+K); non-trivial = at least two goroutines had evaluations in progress at the same time (clock stamps) and the plan contains a parse error and an unseeded roll; distinct by plan; evaluations = programs executed concurrently"
 
 func planProp(t *rapid.T, s *rt.Section, run *rt.Run) {
 	maxSteps := 40
@@ -802,7 +977,11 @@ func enumeratePairs(s *rt.Section, run *rt.Run, rounds int) {
 		if a, ok := cache[key]; ok {
 			return a
 		}
-		a := runAlone(spec)
+		a, verdict := runAloneGuarded(spec)
+		if verdict != "" {
+			stuck(s, Plan{VMs: []VMSpec{spec}}, "alone:"+verdict, verdictText(verdict))
+			return nil
+		}
 		cache[key] = &a
 		return &a
 	}
@@ -905,6 +1084,14 @@ func TestProp(t *testing.T) {
 	run := rt.Begin(t, "C11")
 	defer run.Finish()
 	_ = os.MkdirAll(run.Env.Out, 0o755)
+	fatalExit = func(f *rt.Failure) {
+		run.Failures = append(run.Failures, f)
+		run.Note("the shard ended early on %s: the plan's goroutines cannot be stopped from inside the process", f.Signature)
+		run.Finish()
+		os.Exit(1)
+	}
+	defer func() { fatalExit = nil }()
+	defer func() { run.Note("largest live heap seen by the watchdog: %d MB", maxHeapSeen>>20) }()
 
 	// catalogue: every catalogue program on each of four unsynchronised goroutines at once
 	rotations := 8
@@ -933,11 +1120,11 @@ func TestProp(t *testing.T) {
 	}
 
 	withCapture(run, "plans", func() {
-		run.Check("plans", 200, 5000, planRule+"; built with the race detector and without the verif hooks (whose shared atomic meter would order the goroutines and hide races): zero race reports, each report attributed to the plan that was running",
+		run.Check("plans", 180, 2400, planRule+"; built with the race detector and without the verif hooks (whose shared atomic meter would order the goroutines and hide races): zero race reports, each report attributed to the plan that was running",
 			func(t *rapid.T, s *rt.Section) { planProp(t, s, run) })
 	})
 
-	run.Check("sched", 600, 40000, planRule+"; plain binary with the verif hooks: every n-th VM instruction or roll (n drawn from 1, 2, 7, 50, 400, or never) yields the processor, unseeded VMs roll at the same time",
+	run.Check("sched", 540, 8000, planRule+"; plain binary with the verif hooks: every n-th VM instruction or roll (n drawn from 1, 2, 7, 50, 400, or never) yields the processor, unseeded VMs roll at the same time",
 		func(t *rapid.T, s *rt.Section) { planProp(t, s, run) })
 }
 
@@ -947,7 +1134,8 @@ func TestReplay(t *testing.T) {
 		if err := json.Unmarshal(b, &c); err != nil {
 			return s.NewFailure("replay", "replay:bad-case", nil, err.Error(), "")
 		}
-		attempts := 200 // the verdict of the comparison is schedule dependent
+		attempts := 60 // the verdict of the comparison is schedule dependent
+		began := time.Now()
 		if raceEnabled {
 			attempts = 10 // the detector judges by happens-before, not by luck
 			echoRaces = true
@@ -962,7 +1150,7 @@ func TestReplay(t *testing.T) {
 			if f != nil {
 				return f
 			}
-			if info.discard == "work-ceiling" {
+			if info.discard == "work-ceiling" || time.Since(began) > 60*time.Second {
 				return nil
 			}
 		}
